@@ -134,3 +134,23 @@ package storer
 //gvc:  params s
 //gvc:  ensures own: result.#owner == s
 //gvc:end
+
+// ShallowStorer against an abstract list: #shn is the number of shallow
+// commits stored (the content of the list is not modelled). Trusted interface
+// contract.
+//gvc:ghost ShallowStorer.shn int
+//gvc:func ShallowStorer.SetShallow
+//gvc:  trusted
+//gvc:  params s commits
+//gvc:  results err
+//gvc:  modifies s.#shn
+//gvc:  ensures set: err == nil ==> s.#shn == len(commits)
+//gvc:  ensures kept: err != nil ==> s.#shn == old(s.#shn)
+//gvc:end
+
+//gvc:func ShallowStorer.Shallow
+//gvc:  trusted
+//gvc:  params s
+//gvc:  results commits err
+//gvc:  ensures got: err == nil ==> len(commits) == s.#shn
+//gvc:end
